@@ -133,6 +133,9 @@ def run(ctx):
               "a peer opening a unidirectional stream of an unknown type closes the connection with H3_STREAM_CREATION_ERROR (RFC 9114 §6.2.3 forbids this). forwarded: %s" % sorted(fatal),
               where(task), key="accept_uni-task|forwards=StreamCreation<-UnknownStream")
 
+    ctx.rule("C13-R5", "an unknown capsule is skipped whole: type, length and value are consumed before it is dropped")
+    shared.capsule_with_frame_table(ctx, "C13-R5")
+
     ctx.rule("C13-R4", "unknown settings ignored; reserved and duplicate settings rejected; unknown capsules / non-DATA session frames skipped")
     shared.settings_with_frame_table(ctx, "C13-R4")
     f = A.fn("wtransport_proto::settings::SettingId::is_reserved")
@@ -148,6 +151,6 @@ def run(ctx):
     fn = A.find1(r"^wtransport::driver::streams::connect::ConnectStream::run::\{closure#0\}$")
     ps = walk(fn)
     sk1 = [p for p in ps if p.leaf[0] == "loop" and any(a.endswith(" isnot Data") for a in path_sig(p)[0])]
-    sk2 = [p for p in ps if p.leaf[0] == "loop" and any(re.search(r"^Capsule::with_frame\(.*\) is None$", a) for a in path_sig(p)[0])]
+    sk2 = [p for p in ps if p.leaf[0] == "loop" and any(re.search(r"^Capsule::with_frame\(.*\) fails$", a) for a in path_sig(p)[0])]
     ctx.check("C13-R4", "ConnectStream skips non-DATA frames", len(sk1) == 1, "ConnectStream::run no longer skips non-DATA frames on the session stream", where(fn))
     ctx.check("C13-R4", "ConnectStream skips unknown capsules", len(sk2) == 1, "ConnectStream::run no longer skips unknown capsules", where(fn))
